@@ -294,6 +294,10 @@ func (g *FnGen) execReturn(s *State, x *ssa.Return) {
 	}
 	g.cover = append(g.cover, coverPoint{fmt.Sprintf("ret%d", g.retN), s.pc})
 	for i, e := range g.fc.Ensures {
+		if e.Assumed {
+			g.c.assumptionsUsed["assumed postcondition (not checked in the body): "+g.fn.Name()+" ensures "+e.Src] = true
+			continue
+		}
 		for j, c := range env.conjuncts(e.E) {
 			g.addObl(s, "ensures", fmt.Sprintf("ensures[%s]@ret%d", clauseID(e, i, j), g.retN), e.Src, e.Where, c)
 		}
